@@ -29,7 +29,7 @@ def values_for(rng, dt, shape):
     return v.astype(np.int64)
 
 
-def stmt_failure(desc, ints, peaks, dt):
+def stmt_failure(desc, ints, peaks, dt, upsample=False):
     pattern = cl.pattern_from_desc(desc)
     frames = ints.astype(dt)[np.newaxis] if ints.ndim == 2 else ints.astype(dt)          # (fy, fx) or a stack (n, fy, fx)
     ref_frames = frames.astype('f8')
@@ -38,48 +38,53 @@ def stmt_failure(desc, ints, peaks, dt):
     # passed in must not be modified (np.asarray does not copy an array that already has the requested dtype)
     for name, fn in (('process_frames_full', cc.process_frames_full), ('process_frames_fast', cc.process_frames_fast), ('process_frames_full', cc.process_frames_full)):
         try:
-            a = fn(pattern, frames, np.asarray(peaks))
+            a = fn(pattern, frames, np.asarray(peaks), upsample=upsample)
             if not np.array_equal(frames, frames0):
                 return '%s modified the %s frames passed in' % (name, dt)
         except Exception as e:  # noqa
             return '%s raised %s for dtype %s: %s' % (name, type(e).__name__, dt, str(e)[:200])
         try:
-            b = fn(pattern, ref_frames, np.asarray(peaks))
+            b = fn(pattern, ref_frames, np.asarray(peaks), upsample=upsample)
         except Exception as e:  # noqa
             return '%s raised %s for the same pixel values as float64: %s' % (name, type(e).__name__, str(e)[:200])
         sc = float(np.abs(b[2]).max()) + 1.0
         for nm, x in zip(('refineds', 'heights', 'elevations'), a[1:]):
             if not np.isfinite(x).all():
                 return '%s: %s not finite for dtype %s (overflow / wrap-around): %s' % (name, nm, dt, np.asarray(x).tolist())
-        if not np.array_equal(a[0], b[0]) and ints.ndim == 3:
+        same = (a[0] == b[0]).all(axis=2)               # (frame, peak): centres agree; the other outputs of those peaks are compared below
+        if not same.all() and ints.ndim == 3:
             nf = int(np.argwhere((a[0] != b[0]).any(axis=(1, 2)))[0][0])
             if not np.allclose(a[2][nf], b[2][nf], rtol=2e-4, atol=2e-4 * sc):
                 return '%s: frame #%d of a stack: centres for dtype %s %s differ from float64 %s (heights %s vs %s)' % (
                     name, nf, dt, a[0][nf].tolist(), b[0][nf].tolist(), a[2][nf].tolist(), b[2][nf].tolist())
-            continue
-        if not np.array_equal(a[0], b[0]):
+        elif not same.all():
             # centres may differ only on near ties
-            maps, scale = cl.oracle_maps(pattern, ints.astype(np.float64), peaks, 'fast' if 'fast' in name else 'full')
+            maps, scale = cl.oracle_maps(pattern, ints.astype(np.float64), [peaks[i] for i in range(len(peaks)) if not same[0][i]], 'fast' if 'fast' in name else 'full')
             c = pattern.get_crop_size()
-            for i, p in enumerate(peaks):
+            for cm, i in zip(maps, [i for i in range(len(peaks)) if not same[0][i]]):
+                p = peaks[i]
                 u = a[0][0][i] - np.array(p) + c
                 w = b[0][0][i] - np.array(p) + c
-                if not (0 <= u[0] < 2 * c and 0 <= u[1] < 2 * c) or abs(maps[i][u[0], u[1]] - maps[i][w[0], w[1]]) > 3e-4 * scale + 2e-3:
+                if not (0 <= u[0] < 2 * c and 0 <= u[1] < 2 * c) or abs(cm[u[0], u[1]] - cm[w[0], w[1]]) > 3e-4 * scale + 2e-3:
                     return '%s: centres for dtype %s %s differ from float64 %s' % (name, dt, a[0].tolist(), b[0].tolist())
-            continue
-        for nm, x, y, tol, s in (('refineds', a[1], b[1], 2e-3, 1.0), ('heights', a[2], b[2], 2e-5, sc), ('elevations', a[3], b[3], 1e-3, sc)):
-            if not np.allclose(x, y, rtol=tol, atol=tol * s):
+        a = (a[0], a[1][same], a[2], a[3][same])        # heights are comparable for every peak; refined positions and elevations where the centres agree
+        b = (b[0], b[1][same], b[2], b[3][same])
+        # with DFT upsampling the refined position is a point of a grid of spacing 1/u: near-equal grid values may resolve to neighbouring points
+        tol_ref = 2e-3 if not upsample else 1.0 / (20 if upsample is True else int(upsample)) + 2e-3
+        for nm, x, y, tol, s in (('refineds', a[1], b[1], tol_ref, 1.0), ('heights', a[2], b[2], 2e-5, sc), ('elevations', a[3], b[3], 1e-3, sc)):
+            # refined positions: an absolute tolerance in pixels (not relative to the coordinate); heights and elevations: relative to the largest height
+            if not np.allclose(x, y, rtol=0 if nm == 'refineds' else tol, atol=tol * s):
                 return '%s: %s for dtype %s %s differ from float64 %s' % (name, nm, dt, np.asarray(x).tolist(), np.asarray(y).tolist())
     return None
 
 
-def mk_replay(desc, ints, peaks, dt, fail):
-    return {'kind': 'input', 'call': 'process_frames_fast/full', 'args': {'pattern': desc, 'ints': np.asarray(ints).tolist(), 'peaks': [list(map(int, p)) for p in peaks], 'dtype': dt}, 'failure': fail}
+def mk_replay(desc, ints, peaks, dt, fail, upsample=False):
+    return {'kind': 'input', 'call': 'process_frames_fast/full', 'args': {'pattern': desc, 'ints': np.asarray(ints).tolist(), 'peaks': [list(map(int, p)) for p in peaks], 'dtype': dt, 'upsample': upsample}, 'failure': fail}
 
 
 def replay(body):
     a = body['args']
-    fail = stmt_failure(a['pattern'], np.array(a['ints'], dtype=np.int64), [tuple(p) for p in a['peaks']], a['dtype'])
+    fail = stmt_failure(a['pattern'], np.array(a['ints'], dtype=np.int64), [tuple(p) for p in a['peaks']], a['dtype'], a.get('upsample', False))
     print(json.dumps({'failure_now': fail}, indent=1))
     if fail:
         print('VIOLATION property=C15 replay=(given)')
@@ -170,6 +175,9 @@ def run(ctx):
             peaks = [(int(rng.integers(c, fy - c)), int(rng.integers(c, fx - c))) for _ in range(npk)]
             ctx.hist('blocks for float64 buffers / float32 buffers', '%d/%d' % (-(-npk // b64), -(-npk // blc.get_buf_count(c, npk, np.dtype('f4')))))
         stack = (k % 3 == 1) or k > nS + nBig
+        # DFT upsampling on: every case with more peaks than float64 crop buffers, and every fourth of the others
+        ups = True if (nS <= k < nS + nBig or k % 4 == 3) else False
+        ctx.hist('upsample', ups)
         for dt in DTYPES:
             ints = values_for(rng, dt, (fy, fx))
             # a few bright disks so that the maxima are well defined
@@ -180,8 +188,8 @@ def run(ctx):
             if stack:
                 # a stack of three frames with different content (the batch helpers re-use their buffers from frame to frame)
                 ints = np.stack([ints, np.roll(ints, 3, axis=0)[::-1], np.roll(ints, -2, axis=1)])
-            fail = stmt_failure(desc, ints, peaks, dt)
-            ctx.count(2 * len(peaks), key=(desc, fy, fx, peaks, dt, stack))
+            fail = stmt_failure(desc, ints, peaks, dt, ups)
+            ctx.count(2 * len(peaks), key=(desc, fy, fx, peaks, dt, stack, ups))
             ctx.hist('dtype', dt)
             if fail:
                 sig = fail
@@ -189,7 +197,7 @@ def run(ctx):
                     sig = 'process_frames_fast raises UFuncTypeError for integer frames'
                 elif 'finite' in fail:
                     sig = 'log_scale wraps around in 8/16 bit integer dtypes'
-                ctx.violation('input', fail, mk_replay(desc, ints, peaks, dt, fail), signature=sig)
+                ctx.violation('input', fail, mk_replay(desc, ints, peaks, dt, fail, ups), signature=sig)
                 found = True
                 break
         if found:
@@ -199,4 +207,4 @@ def run(ctx):
         explanation='Theorem: with promotion before the subtraction the argument of the logarithm is exactly x-min+1 for every dtype; the un-promoted '
                     'integer arithmetic is refuted with witnesses (the repaired defect). Tie: the model argument vs exp() of what log_scale and '
                     'log_scale_cropbufs_inplace return for arrays containing the dtype extremes; oracle: both batch entry points for 10 dtypes vs float64.',
-        rule='values incl. dtype extremes for 8/16-bit types, +-2^24 for wider types; 10 dtypes; random patterns/shapes/peaks, plus cases with crop size 30..40 and more peaks than float64 crop buffers (several blocks for wide dtypes, one for narrow ones); distinct by (pattern, shape, peaks, dtype).')
+        rule='values incl. dtype extremes for 8/16-bit types, +-2^24 for wider types; 10 dtypes; random patterns/shapes/peaks, plus cases with crop size 30..40 and more peaks than float64 crop buffers (several blocks for wide dtypes, one for narrow ones; DFT upsampling on); distinct by (pattern, shape, peaks, dtype).')
